@@ -11,6 +11,7 @@ pub mod poll;
 pub mod req;
 pub mod resp;
 pub mod revoke;
+#[cfg(feature = "optional-lib-features")]
 pub mod seceq;
 pub mod urlt;
 pub mod err;
@@ -30,6 +31,7 @@ pub fn dispatch(op: &str, cfg: &RunCfg, d: &mut Driver) -> Option<OpResult> {
         "pkce_flow" => run_op::<pkce::PkceFlowCase>(cfg, d),
         "rand" => run_op::<pkce::RandCase>(cfg, d),
         "url" => run_op::<urlt::UrlCase>(cfg, d),
+        #[cfg(feature = "optional-lib-features")]
         "seceq" => run_op::<seceq::SecEqCase>(cfg, d),
         "resp" => run_op::<resp::RespCase>(cfg, d),
         "revoke" => run_op::<revoke::RevokeCase>(cfg, d),
